@@ -168,6 +168,12 @@ def check_slice(ctx, rep, rule: str, funcs: List[FuncInfo], what: str, exempt=("
             else:
                 key_e, val_e = n.args[0], n.args[1]
             kd, vd = dep_of(key_e), dep_of(val_e)
+            # a key computed from a parameter (a digest, a shape, a sorted list of names) may leave out part of what the value
+            # depends on: only parameters that enter the key as they are count as covered
+            bare = {x.id for x in ([key_e] if isinstance(key_e, ast.Name) else key_e.elts if isinstance(key_e, ast.Tuple) else [])
+                    if isinstance(x, ast.Name) and x.id in fi.params}
+            if not isinstance(key_e, ast.Name) or key_e.id not in fi.params:
+                kd = bare if isinstance(key_e, ast.Tuple) else (kd if isinstance(key_e, ast.Name) and not (deps.get(key_e.id, set()) - {key_e.id}) else bare)
             missing = vd - kd
             ok = not missing
             rep.oblige((rule, q, cont, "key"), ok, sample={"memo table": cont, "key": norm(key_e), "value depends on": sorted(vd), "key covers": sorted(kd)})
